@@ -15,9 +15,9 @@ PLAN = {
                 gen="cases,trailer,sized,wrap", nq=150, nt=1500, inv="InvCase"),
     "C17": dict(mc_q=[("flat", 4), ("group", 8)], mc_t=[("flat", 1), ("parts", 1), ("group", 1), ("nested", 1)],
                 gen="cases,trailer,empty,values", nq=150, nt=1500, inv="InvCase"),
-    "C02": dict(mc_q=[("group", 8), ("nested", 40)], mc_t=[("flat", 1), ("group", 1), ("nested", 1)],
+    "C02": dict(mc_q=[("group", 8), ("nested", 8)], mc_t=[("flat", 1), ("group", 1), ("nested", 1)],
                 gen="cases", nq=200, nt=2500, inv="InvCase"),
-    "C18": dict(mc_q=[("flat", 4), ("group", 8), ("nested", 40)], mc_t=[("flat", 1), ("group", 1), ("nested", 1), ("parts", 1)],
+    "C18": dict(mc_q=[("flat", 4), ("group", 8), ("nested", 8)], mc_t=[("flat", 1), ("group", 1), ("nested", 1), ("parts", 1)],
                 gen="look", nq=200, nt=2500, inv="InvCase"),
     "C03": dict(mc_q=[("flat", 16)], mc_t=[("flat", 1), ("group", 4)],
                 gen="cases,look,damage,raw", nq=40, nt=300, inv="InvCase InvDamage"),
